@@ -773,12 +773,12 @@ func (vc *VC) rangeInit(fr *Frame, st *State, t *ssa.Range) {
 		ks := vc.sortOf(u.Key())
 		it := &iterInfo{mapT: u, m: m, name: iterName(fr, t)}
 		it.keys = vc.q.Fresh(fr.prefix+"$keys", ArraySort(SInt, ks))
-		it.n = vc.q.Define(fr.prefix+"$"+t.Name()+"_n", Ite(Eq(m, NilP), IntLit(0), vc.mapLen(st, m)))
+		it.n = vc.q.Named(fr.prefix+"$"+t.Name()+"_n", Ite(Eq(m, NilP), IntLit(0), vc.mapLen(st, m)))
 		pos := fmt.Sprintf("%s$pos!%d", fr.prefix, vc.q.nfresh)
 		vc.q.nfresh++
 		vc.q.DeclareFun(pos, []Sort{ks}, SInt)
 		dom := vc.mapDom(st, u, m)
-		domd := vc.q.Define(fr.prefix+"$"+t.Name()+"_dom", dom)
+		domd := vc.q.Named(fr.prefix+"$"+t.Name()+"_dom", dom)
 		// enumeration is a bijection between [0,n) and the key set
 		vc.q.Assert(Le(IntLit(0), it.n))
 		vc.q.Raw(fmt.Sprintf("(assert (forall ((i Int)) (! (=> (and (<= 0 i) (< i %s)) (and (select %s (select %s i)) (= (%s (select %s i)) i))) :pattern ((select %s i)))))",
@@ -787,6 +787,9 @@ func (vc *VC) rangeInit(fr *Frame, st *State, t *ssa.Range) {
 			ks, domd.S, pos, pos, it.n.S, it.keys.S, pos, domd.S, pos))
 		vc.set(st, it.name, IntLit(0))
 		it.posFn = pos
+		it.dom = domd
+		it.val = vc.q.Named(fr.prefix+"$"+t.Name()+"_val", vc.mapVal(st, u, m))
+		vc.iterSums(fr, st, it)
 		fr.iters[t] = it
 		fr.vals[t] = NilP
 		vc.assumed["map iteration order is an arbitrary enumeration of the key set (ghost bijection)"] = true
